@@ -47,6 +47,10 @@ def methods(ctx):
     ms = [(n, getattr(I, n)) for n in base]
     ms.append(("Richardson(RK4,3)", de.integrators.generate_richardson_integrator(I.RK4Solver, 3)))
     ms.append(("Richardson(Midpoint,4)", de.integrators.generate_richardson_integrator(I.MidpointSolver, 4)))
+    # deep tables: the level loop may leave early (convergence test from the fifth level on), the step must still bring its pieces
+    ms.append(("Richardson(RK5,7)", de.integrators.generate_richardson_integrator(I.RK5Solver, 7)))
+    if not ctx.quick():
+        ms.append(("Richardson(RK4,6)", de.integrators.generate_richardson_integrator(I.RK4Solver, 6)))
     return ms
 
 
@@ -277,7 +281,16 @@ def run(ctx):
                 t = np.array(o.t)
                 y = np.array(o.y)
                 ex = pexact(t0)
-                st = [float(x) for x in sol.t_eval]
+                te = getattr(sol, "t_eval", None) if sol is not None else None
+                st = [float(x) for x in te] if te is not None else []
+                # a Richardson wrapper's sub-pieces end at t + k h / 2^m, which may differ from the recorded t + dTime in the last bits
+                ka = np.array(st) if st else np.zeros(0)
+                ulp8 = 8 * float(np.spacing(max(1.0, float(np.max(np.abs(t))))))
+                missing = [float(x) for x in t[1:] if ka.size == 0 or float(np.min(np.abs(ka - float(x)))) > ulp8]
+                ctx.oracle("every-recorded-step-has-a-piece", len(t) <= 1 or not missing, dict(inp, steps=len(t) - 1, pieces=len(st), first_missing_end_time=missing[:1]),
+                           what="%d of %d recorded steps end at a time that is no knot of the dense output (%d pieces)" % (len(missing), len(t) - 1, len(st)))
+                if te is None or not st:
+                    continue
                 pieces = sol.y_interpolants
                 sorted_ok = all(b > a for a, b in zip(st, st[1:]))
                 key_hist = dict(single=None, continued=None, **{"event-resumed": "terminal-event-dense-unsorted", "fault-resumed": None, "against-span-event": None})[history]
